@@ -171,6 +171,13 @@ func (r *R) Count(name string, n int64) {
 	r.mu.Unlock()
 }
 
+// WantSample reports whether this shard still has room for samples.
+func (r *R) WantSample() bool {
+	r.mu.Lock()
+	defer r.mu.Unlock()
+	return len(r.Samples) < 2
+}
+
 func (r *R) Sample(s any) {
 	r.mu.Lock()
 	if len(r.Samples) < maxSamples {
